@@ -46,6 +46,8 @@ def check(prog, run):
     cursor_chain_rule(prog, run, "R10")
     run.rule("R14", "AV1 OBU header parsing == AV1 5.3.1/5.3.2 for all 256 header bytes (type, extension, payload offset and size; forbidden bit refused)")
     obu_header_rule(prog, run, "R14")
+    run.rule("R15", "the AV1 sequence header is found wherever it stands among the OBUs of a temporal unit, and only it is parsed (tabulated over leading OBU sequences)")
+    av1_seq_position_rule(prog, run, "R15")
     run.rule("R13", "parameter-set slots by NAL type: for all 256 header bytes the unit lands in the slot of its specification type only; first wins (H.264, H.265)")
     parameter_set_table_rule(prog, run, "R13")
     run.rule("R12", "AV1 bit reader primitives (read_bit, read_bits, skip_bits) and the uvlc helper behave as the descriptors f(n) / uvlc() of the AV1 specification (complete tabulation of their finite state)")
@@ -779,6 +781,78 @@ def obu_header_rule(prog, run, rule):
               "" if bad is None else "OBU header byte 0x%02x (%s): parse_obu_header gives %s, AV1 5.3.1-5.3.2 prescribes %s" % (bad[0], ("obu_size %d" % bad[2]) if bad[1] else "no size field", bad[3], bad[4]),
               mir.loc_of(u.bodies[fns[0]]))
     run.floor(rule, n, 512, "OBU header evaluations")
+
+
+def av1_seq_position_rule(prog, run, rule):
+    """An AV1 temporal unit may carry temporal-delimiter, metadata, padding (and, for a later unit, frame) OBUs before its sequence
+    header (AV1 7.5 only orders it before the first frame header).  `extract_av1_config` is tabulated by finite-domain interpretation
+    of its MIR on units [prefix OBUs..., sequence header, frame] for every prefix of at most two OBUs drawn from {temporal delimiter,
+    metadata, padding, tile list} with and without extension byte, and on the same units without sequence header: it must hand
+    exactly the sequence-header OBU (its bytes from its own header on, and its header size) to the sequence-header parser, and
+    report `None` iff there is none.  (Model: the sequence-header parser is replaced by a recorder; ObuIter and the OBU header
+    parser are interpreted - R14 decides the header table.)"""
+    from .. import minieval as E
+    import itertools
+    u = prog.lib
+    fns = [k for k in u.bodies if mir.norm(k) == "codec::av1::extract_av1_config" and not u.bodies[k]["in_test_cfg"]]
+    psh = [k for k in u.bodies if mir.norm(k) == "codec::av1::parse_sequence_header" and not u.bodies[k]["in_test_cfg"]]
+    if len(fns) != 1 or len(psh) != 1:
+        run.bad(rule, "anchor extract_av1_config", "AV1 configuration extractor / sequence-header parser not found")
+        return
+
+    def obu(t, payload, ext=False):
+        return [(t << 3) | (4 if ext else 0) | 2] + ([0x00] if ext else []) + [len(payload)] + list(payload)
+    seq_payload = [0x0A, 0x0B, 0x0C]
+    prefixes = [()]
+    kinds = [(2, []), (5, [0x01, 0x02]), (15, [0x00, 0x00, 0x00]), (8, [0x07])]
+    for k in kinds:
+        for e in (False, True):
+            prefixes.append(((k, e),))
+    for a, b in itertools.product(kinds, kinds):
+        prefixes.append(((a, False), (b, False)))
+    n = 0
+    bad = None
+    try:
+        for pre in prefixes:
+            for with_seq in (True, False):
+                for seq_ext in (False, True):
+                    data = []
+                    for (t, pl), e in pre:
+                        data += obu(t, pl, e)
+                    seq_at = len(data)
+                    if with_seq:
+                        data += obu(1, seq_payload, seq_ext)
+                    data += obu(6, [0x33, 0x44, 0x55, 0x66])
+                    seen = []
+
+                    def rec(m_, args, depth, seen=seen):
+                        seen.append(args)
+                        return E.some(E.Adt("Av1Config", 0, [7], ["marker"]))
+                    m = E.Machine(u, models={"codec::av1::parse_sequence_header": rec})
+                    m.lenient = True
+                    r = m.call_fn(fns[0], [E.Bytes(dict(enumerate(data)), exact=len(data))])
+                    n += 1
+                    if not (isinstance(r, E.Adt) and r.name == "Option"):
+                        raise E.Unsupported("result outside the model: %r" % (r,))
+                    if with_seq:
+                        ok = r.variant == 1 and len(seen) == 1
+                        if ok:
+                            a0, a1 = seen[0][0], seen[0][1]
+                            hs = 2 + (1 if seq_ext else 0)
+                            want_b = obu(1, seq_payload, seq_ext)
+                            ok = isinstance(a0, E.Bytes) and a1 == hs and [a0.known.get(i_) for i_ in range(len(want_b))] == want_b and a0.minlen >= len(want_b)
+                    else:
+                        ok = r.variant == 0 and not seen
+                    if not ok and bad is None:
+                        bad = ([("%d%s" % (t, "+ext" if e else "")) for (t, pl), e in pre], with_seq, r.variant, [([x[0].known.get(i_) for i_ in range(6)] if isinstance(x[0], E.Bytes) else x[0], x[1]) for x in seen])
+    except E.Unsupported as ex:
+        run.bad(rule, "AV1 sequence header position", "cannot tabulate extract_av1_config (fail closed): %s" % ex)
+        return
+    run.check(bad is None, rule, "AV1 sequence header position", "found after any leading temporal-delimiter / metadata / padding / tile-list OBUs; None iff absent (%d units)" % n,
+              "" if bad is None else "temporal unit with leading OBU types %s %s a sequence header: extract_av1_config returns %s and hands the parser %s" % (
+                  bad[0], "and" if bad[1] else "without", "Some" if bad[2] else "None", bad[3] or "nothing"), mir.loc_of(u.bodies[fns[0]]))
+    run.floor(rule, n, 80, "temporal units evaluated")
+
 
 
 # ---- R13: which NAL unit goes into which parameter-set slot ------------------------------------------------------------------------
